@@ -304,6 +304,67 @@ impl MNode {
     }
 
     /// all infosets of a player with their action names (first occurrence wins)
+    /// names of the special tree shapes this game contains (reach probes of the CLI checks)
+    pub fn shape_probes(&self) -> Vec<&'static str> {
+        fn go(n: &MNode, depth: usize, under_chance: bool, f: &mut std::collections::BTreeSet<&'static str>, depths: &mut BTreeMap<(usize, String), usize>) {
+            match n {
+                MNode::T(x) => {
+                    if *x == 0.0 {
+                        f.insert("shape_payoff_exactly_zero");
+                    }
+                }
+                MNode::C { outs, .. } => {
+                    if outs.len() == 1 {
+                        f.insert("shape_chance_node_with_one_outcome");
+                    }
+                    if under_chance {
+                        f.insert("shape_chance_directly_under_chance");
+                    }
+                    if outs.len() >= 6 {
+                        f.insert("shape_six_or_more_branches");
+                    }
+                    outs.iter().for_each(|(_, _, c)| go(c, depth + 1, true, f, depths));
+                }
+                MNode::P { player, info, acts } => {
+                    if acts.len() == 1 {
+                        f.insert("shape_single_action_infoset");
+                    }
+                    if acts.len() >= 6 {
+                        f.insert("shape_six_or_more_branches");
+                    }
+                    match depths.get(&(*player, info.clone())) {
+                        Some(d) if *d != depth => {
+                            f.insert("shape_one_infoset_at_two_depths");
+                        }
+                        Some(_) => {}
+                        None => {
+                            depths.insert((*player, info.clone()), depth);
+                        }
+                    }
+                    if acts.iter().all(|(_, c)| matches!(c, MNode::T(_))) && acts.iter().all(|(_, c)| matches!(c, MNode::T(x) if matches!(&acts[0].1, MNode::T(y) if x == y))) && acts.len() > 1 {
+                        f.insert("shape_infoset_with_all_actions_equal");
+                    }
+                    acts.iter().for_each(|(_, c)| go(c, depth + 1, false, f, depths));
+                }
+            }
+        }
+        let mut f = std::collections::BTreeSet::new();
+        f.insert(match self {
+            MNode::T(_) => "shape_root_is_a_terminal",
+            MNode::C { .. } => "shape_root_is_a_chance_node",
+            MNode::P { .. } => "shape_root_is_a_decision_node",
+        });
+        go(self, 0, false, &mut f, &mut BTreeMap::new());
+        let infos = self.infosets();
+        if infos[0].is_empty() != infos[1].is_empty() {
+            f.insert("shape_one_player_never_moves");
+        }
+        if infos[0].is_empty() && infos[1].is_empty() {
+            f.insert("shape_nobody_moves");
+        }
+        f.into_iter().collect()
+    }
+
     pub fn infosets(&self) -> [BTreeMap<String, Vec<String>>; 2] {
         let mut res: [BTreeMap<String, Vec<String>>; 2] = Default::default();
         fn rec(n: &MNode, res: &mut [BTreeMap<String, Vec<String>>; 2]) {
